@@ -43,6 +43,8 @@ func obligStatus(o *Oblig) (status string, worst *ObligInstance) {
 				status = "failed"
 				worst = in
 			}
+		case "skipped":
+			// only produced when the obligation already has counterexamples on other paths
 		default:
 			if status == "discharged" {
 				status = "unknown"
